@@ -30,7 +30,7 @@ def b(x):
 RCOMP = dict(cm="Rcm", u="Ru", mprime="Rmp", a="Ra", b="Rb", x="Rx", y="Ry", s="Rs", z="Rz", d="Rd", f="Rf", none="Rcm")
 PCOMP = dict(x="Qx", y="Qy", Gamma="QGamma", Phi="QPhi", he="Qhe", hpe="Qhpe", nu="Qnu", kappa="Qkappa", none="Qx")
 PERT = dict(none="Pnone", plusgen="Pplus", swap="Pswap", zero="Pzero")
-REQLIE = dict(none=0, a=1, b=2, rcm=3, sim=4)
+REQLIE = dict(none=0, a=1, b=2, rcm=3, sim=4, a2=5, b2=6, f2=7, d2=8, x2=9, y2=10)
 POKLIE = dict(none=0, delta=1, eps0=2)
 THR = dict(honest=0, below_t=0, otherkey=1, rotated=2, foreign=3)
 ORB = dict(d=0, f=1, a=2, b=3, s=4, cm=5, g=6, g0=7, h=8, u=9, gs=10)
@@ -340,13 +340,15 @@ def run_c09(chk, seed, tier):
     chk.cov["rule"] = ("perturbation catalogue on real objects of real key generations: every field of a BlindSignature request (cm,u,mPrime,a_i,b_i, "
                        "proof x_i,y_i,s,z,d_i,f_i) and of a SigPoK (psi.x_i, psi.y, Gamma, Phi, h^eps, h'^eps, nu, kappa) x {+generator, same field of another "
                        "session, zero} x {through the byte interface TPS.Sign / Verifier.Verify, on the Go object}, each verified twice; provers lying about "
-                       "one witness with the Fiat-Shamir proof recomputed (isolates each verification equation); wrong signer-to-witness assignment, foreign "
+                       "one witness with the Fiat-Shamir proof recomputed (isolates each verification equation); compensating alterations of two components "
+                       "(+P / -P, sums and products over the vector preserved; a and b before proving, f, d, x, y in the finished proof); wrong signer-to-witness assignment, foreign "
                        "witness, key of another DKG, fewer than t witnesses; which arguments the two oracle functions hash; BLS: message bit flipped, each share + "
                        "generator, aggregate altered/zero/of another message, key of another DKG, rotated assignment, every subset of size t-1; (signer, share) pairs in every order through the public aggregation API and their "
                        "re-pairings (sorted labels on unsorted shares, two swapped, outsider's share, duplicate signer); plus malformed "
                        "ASN.1 at every parser entry point (no panic). distinct by (class, N, t, L, component, index, perturbation, path, signers)")
     chk.cov["input_distribution"] = dict(collections.Counter("%s/%s" % (c["cls"], c["pert"] if c["cls"] not in ("req", "pok") else c["comp"]) for c, _ in rows))
     chk.cov["malformed_inputs"] = dict(collections.Counter(m["entry"] + ("/panic" if m["panic"] else "/rejected" if m["err"] else "/accepted-or-ignored") for m, _ in mal))
+    chk.cov["compensating_alterations"] = dict(collections.Counter(c["pert"] for c, _ in rows if c["cls"] == "reqforge" and c["pert"].endswith("2")))
     chk.cov["not_compared"] = skipped
     chk.cov["not_compared_kinds"] = dict(skipped_kinds)
     pairs = [c for c, _ in rows if c["cls"] == "blspairs"]
